@@ -9,8 +9,8 @@ EXTENDS Gate, Json
 CONSTANTS MaxLen, Side, Cfgs
 VARIABLES cfg, s, hist, last
 vars == <<cfg, s, hist, last>>
-Alphabet == IF Side = "server" THEN {"cer_ok", "cer_bad", "cer_noid", "cer_sec", "dwr", "ccr", "cca", "ulr", "rar", "cer_ok_wfail", "ccr_e", "raa_e", "cer_sec_ccr"}
-            ELSE {"cea_ok", "cea_fail", "dwr", "ccr", "cca", "ulr", "rar", "cer_ok", "ccr_e", "raa_e"}
+Alphabet == IF Side = "server" THEN {"cer_ok", "cer_bad", "cer_noid", "cer_sec", "dwr", "ccr", "cca", "ulr", "rar", "cer_ok_wfail", "ccr_e", "raa_e", "cer_sec_ccr", "dwa"}
+            ELSE {"cea_ok", "cea_fail", "dwr", "ccr", "cca", "ulr", "rar", "cer_ok", "ccr_e", "raa_e", "dwa"}
 Init == cfg \in Cfgs /\ s = Init0 /\ hist = <<>> /\ last = Quiet(Init0)
 Recv(m) == /\ Len(hist) < MaxLen
            /\ (Side = "client" /\ m \in {"cea_ok", "cea_fail"}) => ~(\E i \in 1..Len(hist) : hist[i] \in {"cea_ok", "cea_fail"})
